@@ -160,10 +160,8 @@ bool Json::Private::readToken()
                 break;
               }
               break;
-            default:
+            default: // unknown escape: keep the backslash, the next character is handled like any other (it may be the terminator or a line break)
               value.append('\\');
-              value.append(*pos.pos);
-              ++pos.pos;
               break;
             }
           }
